@@ -141,7 +141,11 @@ RunResult WorldT::execute(json const& plan) const
                     oo.field_tesla[k] = al["field"][k].get<double>();
             oo.field_delta_chord = 0.025;  // FieldDriverOptions default [cm]
             if (al.contains("driver"))
+            {
                 oo.field_delta_chord = al["driver"].value("delta_chord", oo.field_delta_chord);
+                oo.field_max_nsteps = al["driver"].value("max_nsteps", oo.field_max_nsteps);
+                oo.field_minimum_step = al["driver"].value("minimum_step", oo.field_minimum_step);
+            }
         }
         if (std::getenv("VSIM_TRACE"))
         {
